@@ -2,6 +2,7 @@ import EduceModel.Expand
 import EduceModel.Gen.PartialEq
 import EduceModel.Gen.Hash
 import EduceModel.Gen.Clone
+import EduceModel.Gen.Ord
 /-
   C11 — automatic bounds are exactly those the generated code needs.
 -/
@@ -282,5 +283,84 @@ theorem clone_struct_body_delegates_exactly (fas : List (Field × CloneFieldAttr
 theorem clone_types_are_delegated (vs : List (Variant × List (Field × CloneFieldAttr))) :
     (vs.flatMap fun (_, fas) => fas.filterMap fun (f, a) => if a.method.isSome then none else some f.ty)
       = vs.flatMap fun p => cloneDelegatedTypes p.2 := rfl
+
+/-! ### Ord / PartialOrd: the ranked field list of the two layers
+
+The predicates of an educed Ord / PartialOrd are computed from the attribute layer's ranked list (`rankLoop`), the
+comparison body visits the behavioural layer's (`Gen.Ord.rankFields`, proved to be the rank order in Props/C03).
+They are the same list. -/
+
+/-- the attribute layer's insertion is the behavioural layer's `btInsert` -/
+theorem insertRank_eq_btInsert (k : Int) (x : Field × CmpFieldAttr) (acc : List (Int × (Field × CmpFieldAttr))) :
+    insertRank k x acc = Gen.Ord.btInsert k x acc := by
+  induction acc with
+  | nil => rfl
+  | cons p rest ih =>
+    obtain ⟨k', y⟩ := p
+    simp only [insertRank, Gen.Ord.btInsert, ih]
+
+def onPayload {α β : Type} (g : α → β) (l : List (Int × α)) : List (Int × β) := l.map fun p => (p.1, g p.2)
+
+theorem btInsert_onPayload {α β : Type} (g : α → β) (k : Int) (x : α) (acc : List (Int × α)) :
+    (Gen.Ord.btInsert k x acc).map (onPayload g) = Gen.Ord.btInsert k (g x) (onPayload g acc) := by
+  induction acc with
+  | nil => rfl
+  | cons p rest ih =>
+    obtain ⟨k', y⟩ := p
+    simp only [Gen.Ord.btInsert, onPayload, List.map_cons]
+    split
+    · rfl
+    · split
+      · rfl
+      · have ih' := ih
+        simp only [onPayload] at ih'
+        rw [← ih']
+        cases Gen.Ord.btInsert k x rest <;> rfl
+
+def toOrdField (fa : Field × CmpFieldAttr) : OrdField :=
+  { name := (fa.1.name.getD "").toList, ignore := fa.2.ignore, method := fa.2.method.map fun _ => 0, rank := fa.2.rank }
+
+/-- **The two layers rank alike.** Fed with the same fields, the attribute layer's `rankLoop` (Expand.lean, what the
+    impl header is computed from) and the behavioural layer's `rankFields` (Gen/Ord.lean, what the comparison body
+    visits) refuse in the same cases (a rank given twice) and otherwise list the same fields under the same ranks
+    in the same order. -/
+theorem rankLoop_agrees_with_rankFields :
+    ∀ (fas : List (Field × CmpFieldAttr)) (i : Nat) (acc₁ : List (Int × (Field × CmpFieldAttr))) (acc₂ : List (Int × (Nat × OrdField))),
+      onPayload toOrdField acc₁ = onPayload Prod.snd acc₂ →
+      (rankLoop i fas acc₁).map (onPayload toOrdField) = (Gen.Ord.rankFields i (fas.map toOrdField) acc₂).map (onPayload Prod.snd) := by
+  intro fas
+  induction fas with
+  | nil => intro i acc₁ acc₂ h; simp [rankLoop, Gen.Ord.rankFields, h]
+  | cons fa rest ih =>
+    intro i acc₁ acc₂ h
+    obtain ⟨f, a⟩ := fa
+    have hci : (toOrdField (f, a)).ignore = a.ignore := rfl
+    have hk : a.rank.getD (-9223372036854775808 + (i : Int)) = Gen.Ord.effRank i (toOrdField (f, a)) := by
+      simp [Gen.Ord.effRank, toOrdField, isizeMin]
+    simp only [rankLoop, List.map_cons, Gen.Ord.rankFields, hci]
+    by_cases hig : a.ignore = true
+    · simp only [hig, if_true]
+      exact ih (i + 1) acc₁ acc₂ h
+    · simp only [hig, Bool.false_eq_true, if_false]
+      have e1 := btInsert_onPayload toOrdField (a.rank.getD (-9223372036854775808 + (i : Int))) (f, a) acc₁
+      have e2 := btInsert_onPayload (Prod.snd : Nat × OrdField → OrdField) (Gen.Ord.effRank i (toOrdField (f, a))) (i, toOrdField (f, a)) acc₂
+      simp only at e2
+      rw [h, hk] at e1
+      rw [insertRank_eq_btInsert, ← hk] at *
+      have e3 : (Gen.Ord.btInsert (a.rank.getD (-9223372036854775808 + (i : Int))) (f, a) acc₁).map (onPayload toOrdField)
+              = (Gen.Ord.btInsert (a.rank.getD (-9223372036854775808 + (i : Int))) (i, toOrdField (f, a)) acc₂).map (onPayload Prod.snd) := by
+        rw [e1, e2]
+      cases h1 : Gen.Ord.btInsert (a.rank.getD (-9223372036854775808 + (i : Int))) (f, a) acc₁ with
+      | none =>
+        cases h2 : Gen.Ord.btInsert (a.rank.getD (-9223372036854775808 + (i : Int))) (i, toOrdField (f, a)) acc₂ with
+        | none => rfl
+        | some r => rw [h1, h2] at e3; cases e3
+      | some r1 =>
+        cases h2 : Gen.Ord.btInsert (a.rank.getD (-9223372036854775808 + (i : Int))) (i, toOrdField (f, a)) acc₂ with
+        | none => rw [h1, h2] at e3; cases e3
+        | some r2 =>
+          rw [h1, h2] at e3
+          simp only [Option.map_some, Option.some.injEq] at e3
+          exact ih (i + 1) r1 r2 e3
 
 end Educe.Attr
